@@ -411,9 +411,11 @@ void vec(vf::Draw &d, vf::Ctx &ctx) {
       if (!vfo::close(got, s, INT ? 0 : vfo::gamma_n(S + 1, u) * m + 1e-300L, &ctx.ratio)) ctx.fail("sum(): got %s expected %s", vfo::show(got).c_str(), vfo::show(s).c_str());
     } else ctx.label("absent:sum");
     if constexpr (has_product<V>::value) {
-      W p(1); ld m = 1; for (size_t i = 0; i < S; ++i) { p *= W(a[i]); m *= vfo::mag(a[i]); }
+      // judged only when NO partial product (in any association) can overflow or underflow: bound the magnitudes >= 1 and <= 1 separately
+      W p(1); ld m = 1, big = 1, small = 1;
+      for (size_t i = 0; i < S; ++i) { p *= W(a[i]); ld x = vfo::mag(a[i]); m *= x; if (x > 1) big *= x; else if (x > 0) small *= x; }
       T got = va.product();
-      bool inrange = m < 1e30L && (m == 0 || m > 1e-30L);
+      bool inrange = big < 1e30L && small > 1e-30L;
       if (inrange && !vfo::close(got, p, INT ? 0 : vfo::gamma_n(2 * S + 2, u) * m + 1e-300L, &ctx.ratio)) ctx.fail("product(): got %s expected %s", vfo::show(got).c_str(), vfo::show(p).c_str());
     } else ctx.label("absent:product");
     if constexpr (has_dot<V>::value) {
